@@ -18,7 +18,7 @@ for attempt in range(40):
         u = gens.MONO[kw["mono"]](); u.pbc = [True, True, False]
         n = int(kw["rep"]); a = u * (n, n, 1); a.pbc = [True, True, bool(attempt % 2)]
         b, _ = gens.present(a, 0.0, rng, rotate=False)
-        recipe = {"family": "monolayer", "material": kw["mono"], "rep": n, "pbcz": bool(attempt % 2), "noise": 0.0, "n": len(b)}
+        recipe = {"family": "monolayer", "material": kw["mono"], "rep": n, "rep2": n, "reps4": bool(n == 4), "pbcz": bool(attempt % 2), "noise": 0.0, "n": len(b)}
         structs = {"s0": atoms_to_spec(b, recipe), "unit0": atoms_to_spec(u, {"family": "unitcell", "material": kw["mono"]})}
         ops = [{"op": "CLUSTER", "s": "s0", "params": {}, "seedspec": {"kind": "int", "n": 7 + attempt}, "inst": "fresh"},
                {"op": "ANALYZE", "ref": 0, "tol": 0.1, "source": "unit0", "mono": True}]
